@@ -16,6 +16,7 @@ from vmon import refmodel as rm
 from vmon.shadow import ShadowTrajectory
 from vmon.props import C01
 
+ANCHORS = ['evo/core/metrics.py', 'evo/core/filters.py', 'evo/main_rpe.py']
 LEVEL = "exploration"
 SHARDS = {"quick": 8, "thorough": 16}
 RULE = ("L1: pairs of pose sequences (as C01, with stationary stretches) x delta in "
